@@ -66,6 +66,10 @@ var originAtoms = func() []originAtom {
 	inv("", "https://\u212aexample.com", "https://example.\u212aom", "http\u017f://example.com", "https://ex\u0130mple.com", "https://*.\u212a.example.com")
 	// labels that start or end with a hyphen, and an over-long label in last position (hyphen-free host)
 	inv("", "https://-example.com", "https://example-.com", "https://*.example-.com", "http://my-service-:8080", "https://www.-a.com", "https://www.example."+strings.Repeat("a", 64), "https://"+strings.Repeat("a", 64))
+	// bytes that belong to no part of an origin: punctuation inside scheme, host and port; number syntaxes a lenient integer parser accepts
+	inv("", "http,https://example.com", "ht!tp://example.com", "h,ttp://localhost:8080", "https,://example.com", "+http://example.com", "http;x://example.com", "http~://example.com",
+		"https://exa,mple.com", "https://ex+ample.com", "https://example.com,", "https://a;b.example.com", "https://*.exa,mple.com", "https://example.c(m", "https://ex=ample.com", "https://example.com~",
+		"https://example.com:8_0", "https://example.com:1e3", "https://example.com:0x50", "https://example.com:8,0", "https://example.com:80a", "https://example.com: 80", "https://example.com:８０")
 	inv("", strings.Repeat("s", 65)+"://example.com", "a"+strings.Repeat("+", 64)+"://localhost:8080")
 	inv("", "https://www.résumé.com", "https://Example.com", "HTTPS://example.com", "https://user@example.com", "https://user:pw@example.com",
 		"https://example.com/", "https://example.com/path", "https://example.com?q=1", "https://example.com#f", " https://example.com", "https://example.com ",
@@ -91,7 +95,7 @@ type nameAtom struct {
 
 var methodAtomsL = []nameAtom{
 	{longMethod, ""}, {hugeMethod, ""}, {"*", ""}, {"GET", ""}, {"POST", ""}, {"HEAD", ""}, {"PUT", ""}, {"put", ""}, {"Put", ""}, {"DELETE", ""}, {"delete", ""}, {"PATCH", ""}, {"patch", ""},
-	{"PURGE", ""}, {"OPTIONS", ""}, {"options", ""}, {"Foo", ""}, {"QUERY", ""}, {"get", ""}, {"M-SEARCH", ""}, {"a!#$%&'*+-.^_`|~9", ""},
+	{"PURGE", ""}, {"OPTIONS", ""}, {"options", ""}, {"Foo", ""}, {"QUERY", ""}, {"get", ""}, {"pOst", ""}, {"Head", ""}, {"post", ""}, {"oPtIoNs", ""}, {"M-SEARCH", ""}, {"a!#$%&'*+-.^_`|~9", ""},
 	{"CONNECT", "forbidden"}, {"TRACE", "forbidden"}, {"TRACK", "forbidden"}, {"connect", "forbidden"}, {"Trace", "forbidden"}, {"tRaCk", "forbidden"},
 	{"", "invalid"}, {"GE T", "invalid"}, {"GET,POST", "invalid"}, {"résumé", "invalid"}, {"PO\x00ST", "invalid"}, {"(GET)", "invalid"}, {"GET/", "invalid"},
 	{" GET", "invalid"}, {"GET\t", "invalid"}, {"G:T", "invalid"},
